@@ -20,8 +20,8 @@ import vlib
 
 META = {
     "category": "proof",
-    "text": "ON THE PRIMITIVE-FLOAT RUN (C13/MfFloat.v, Common/F64Refine.v, 2 theorems): for ALL finite binary64 arguments and parameters "
-            "of magnitude up to 2^1022, no ordering assumed, the float values of a_mf_tri / a_mf_lins / a_mf_linz (the instance compared "
+    "text": "ON THE PRIMITIVE-FLOAT RUN (C13/MfFloat.v, Common/F64Refine.v, 3 theorems): for ALL finite binary64 arguments and parameters "
+            "of magnitude up to 2^1022, no ordering assumed, the float values of a_mf_tri / a_mf_trap / a_mf_lins / a_mf_linz (the instance compared "
             "bit for bit with the C) are finite, equal the rounded-real values and lie in [0,1]; beyond 2^1023 the claim is FALSE "
             "(C13_f64_span_overflow_refuted: NaN for finite well-ordered parameters whose span overflows) - seven open findings, one "
             "key per family, replayed on the C as strict probes on every run.  "
